@@ -90,6 +90,7 @@ type ContractSet struct {
 	Lemmas []*Lemma                   // proved
 	Ghosts []*GhostVar
 	Tables []*GhostVar // ginv_table directives, expanded by Engine.ExpandTables
+	Monitors []*Monitor // monitor declarations (vc/monitor.go)
 	GInvs  []*Lemma // package-level invariants of globals: proved of the package initialiser, assumed elsewhere
 	Files  []string
 }
@@ -107,7 +108,7 @@ func NewContractSet() *ContractSet {
 var clauseKW = map[string]bool{"requires": true, "ensures": true, "invariant": true, "decreases": true, "assigns": true,
 	"pure": true, "noreturn": true, "panics_if": true, "assume": true, "at": true, "option": true, "use": true}
 var topKW = map[string]bool{"func": true, "trusted": true, "interface": true, "loop": true, "spec": true, "pred": true,
-	"ufunc": true, "mfunc": true, "axiom": true, "lemma": true, "ghost": true, "ginv": true, "ginv_table": true}
+	"ufunc": true, "mfunc": true, "axiom": true, "lemma": true, "ghost": true, "ginv": true, "ginv_table": true, "monitor": true}
 
 var labelRe = regexp.MustCompile(`^\[([A-Za-z0-9_.-]+)\]\s*`)
 
@@ -221,6 +222,14 @@ func (cs *ContractSet) LoadFile(path, pkgPath string) error {
 				return fmt.Errorf("%s:%d: ghost <name> <type>", path, it.line)
 			}
 			cs.Ghosts = append(cs.Ghosts, &GhostVar{Name: name, Type: strings.TrimSpace(ty), Pkg: pkgPath, File: path, Line: it.line})
+		case "monitor":
+			curF, curL = nil, nil
+			m, err := parseMonitor(rest)
+			if err != nil {
+				return fmt.Errorf("%s:%d: %v", path, it.line, err)
+			}
+			m.Pkg, m.File, m.Line = pkgPath, path, it.line
+			cs.Monitors = append(cs.Monitors, m)
 		case "ginv_table":
 			curF, curL = nil, nil
 			cs.Tables = append(cs.Tables, &GhostVar{Name: rest, Pkg: pkgPath, File: path, Line: it.line})
